@@ -230,6 +230,23 @@ theorem request_answered_with_forwarding_data (c : Cfg) (s : HState) (id : Int) 
     cases w <;> simp
   · rw [hp, ← requested_eq, find_eq']
 
+/-- Histories with configuration reloads: whatever was configured (and answered) before — any sequence of
+    (configuration, packet) steps — a forwarding request is answered with a payload that authenticates under
+    the secret configured NOW and carries the current configuration's player data; nothing is remembered
+    from earlier answers. -/
+theorem answer_uses_current_secret (hist : List (Cfg × Pkt)) (c : Cfg) (id : Int) (data : Bytes) (w : Bool)
+    (hm : c.mode = .velocity) (hw : WfInput c.address c.player)
+    (hc : (hist.foldl (fun s cp => (step cp.1 s cp.2).1) HState.init).connected = true) :
+    ∃ d, (step c (hist.foldl (fun s cp => (step cp.1 s cp.2).1) HState.init)
+            (.pluginMsg ipForwardingChannel id data w)).2 = .response id true d w ∧
+      checkIntegrity c.secret d = true ∧
+      createForwardingData c.secret c.address c.player (requestedVersion data) = .ok d := by
+  obtain ⟨d, hd, hp⟩ := create_parses c.secret c.address c.player (requestedVersion data) hw
+  refine ⟨d, ?_, (mac_is_hmac c.secret c.address c.player _ d hd).2.2, hd⟩
+  generalize hist.foldl (fun s cp => (step cp.1 s cp.2).1) HState.init = s at hc ⊢
+  simp only [step, hc, hm, hd]
+  cases w <;> simp
+
 /-- the first result delivered to the connection request is final -/
 theorem result_delivered_once (c : Cfg) (s : HState) (p : Pkt) (r : Result) (h : s.result = some r) :
     (step c s p).1.result = some r := step_result_once c s p r h
